@@ -1075,6 +1075,7 @@ func (ls *LState) callR(nargs, nret, rbase int) {
 		Parent:     ls.currentFrame,
 		TailCall:   0,
 	}, lv, meta)
+	ls.nccalls++
 	if ls.G.MainThread == nil {
 		ls.G.MainThread = ls
 		ls.G.CurrentThread = ls
@@ -1082,6 +1083,7 @@ func (ls *LState) callR(nargs, nret, rbase int) {
 	} else {
 		ls.mainLoop(ls, ls.currentFrame)
 	}
+	ls.nccalls--
 	if nret != MultRet {
 		ls.reg.SetTop(rbase + nret)
 	}
@@ -1863,6 +1865,7 @@ func (ls *LState) PCall(nargs, nret int, errfunc *LFunction) (err error) {
 	sp := ls.stack.Sp()
 	base := ls.reg.Top() - nargs - 1
 	oldpanic := ls.Panic
+	nccalls := ls.nccalls
 	ls.Panic = panicWithoutTraceback
 	if errfunc != nil {
 		ls.hasErrorFunc = true
@@ -1872,6 +1875,7 @@ func (ls *LState) PCall(nargs, nret int, errfunc *LFunction) (err error) {
 		ls.hasErrorFunc = false
 		rcv := recover()
 		if rcv != nil {
+			ls.nccalls = nccalls
 			if _, ok := rcv.(*ApiError); !ok {
 				err = newApiErrorS(ApiErrorPanic, fmt.Sprint(rcv))
 				if ls.Options.IncludeGoStackTrace {
